@@ -126,7 +126,14 @@ CLAIMED["C09"]["text"] += (" The successor decisions of the code itself are part
                            "the XxxResult variant of each path, the close reasons added on the way), and proofs/Gen2_equiv_flow.v proves that whenever the model's proceed succeeds its successor and added close "
                            "reasons are the ones the translated decision yields from the model's flags (c09_code_send_request .. c09_code_recv_body, tables c09_code_*_table proved by evaluating the generated "
                            "functions on all flag combinations); a skeleton outside the translated subset falls back to the pinned one and is reported.")
-for _p in ("C03", "C04", "C06", "C07", "C08", "C09", "C12"):
+_FLAGS = (" Part of the flow's code is itself inside the development: tools/rs2coq2.py regenerates on every run, from src/client/flow.rs, %s with the fields of self.inner they touch as "
+          "parameters and what they take from the http crate / the parsers as values, and proofs/Gen2_equiv_flow.v proves them equal to the model (%s); a change of these functions that is not an equivalent "
+          "rewrite breaks that proof obligation of this property; a function outside the translated subset falls back to its pinned translation and is reported (facts.translator2_fallbacks).")
+CLAIMED["C10"]["text"] += _FLAGS % ("Flow::new (initial close reasons, should_send_body, await_100_continue) and Flow<RecvResponse>::try_response (server Connection: close, status, last Location, skip of a delayed 100)",
+                                    "c10_code_new, c10_code_new_table, c10_code_try_response")
+CLAIMED["C11"]["text"] += _FLAGS % ("Flow<Await100>::try_read_100 (whole), Flow<RecvResponse>::try_response (the skip of a late 100) and the flags computed by Flow::new",
+                                    "c11_code_try_read_100, c11_code_late_100, c11_code_new_flags")
+for _p in ("C03", "C04", "C06", "C07", "C08", "C09", "C10", "C11", "C12"):
     CLAIMED[_p]["technique"] += " + the code's own functions translated to Gallina on every run and proved equivalent to the model"
 
 NOT_YET = {}
